@@ -200,6 +200,35 @@ def opReserved : List V → Option V
       some (ofBool (files.any fileReserved))
   | _ => none
 
+/-! ### second pass: the optional-attribute columns (specification) -/
+
+def attrKeys : List String := ["missed_cleavages", "ntt", "num_matched_peptides"]
+
+def allContexts (files : List File) : List (Run × Spectrum × Hit) :=
+  files.flatMap (fun f => match f with
+    | .malformed => []
+    | .doc runs => hitContexts runs)
+
+/-- the column the property promises for an optional-attribute key, where the theorems of
+`Props/C20Attrs.lean` promise one: `none` = no such column (no hit has a cell under the key);
+`model-only` = a search score bears the attribute's name or a value is ≥ 10000 -/
+def specAttrColumn (ctxs : List (Run × Spectrum × Hit)) (k : String) : V :=
+  if ctxs.any (fun c => (scoresOf c.2.2).any (fun kv => kv.1 == k)) then atom "model-only"
+  else if ctxs.all (fun c => (attrOf c.2.2 k).isNone) then atom "none"
+  else if k == "num_matched_peptides" then list (ctxs.map (fun c => ofFV (nmSpecCell c.2.2.nmatched)))
+  else if ctxs.any (fun c => (attrOf c.2.2 k).any (fun i => decide (10000 ≤ i))) then atom "model-only"
+  else list (ctxs.map (fun c => ofFV (attrCell (attrOf c.2.2 k))))
+
+/-- `pepxml-attrs [file*]` → for each of the three optional-attribute keys
+`[key [specified dict cell of every hit*] specified column]` (hits in document order over all files) -/
+def opAttrs : List V → Option V
+  | [fs] => do
+      let files ← toList? toFile? fs
+      let ctxs := allContexts files
+      some (list (attrKeys.map (fun k =>
+        list [ofStr k, list (ctxs.map (fun c => ofXV (.cell (specCell c.2.2 k)))), specAttrColumn ctxs k])))
+  | _ => none
+
 end Mk.Ops.Pepxml
 
 namespace Mk.Ops
@@ -207,6 +236,6 @@ open Mk V Mk.Ops.Pepxml
 
 def pepxmlOps : List (String × (List V → Option V)) :=
   [("pepxml", opPepxml), ("pepxml-spec", opSpec), ("logfeat", opLogFeat), ("insertmods", opInsertMods),
-   ("pepxml-opts", opPepxmlX), ("pepxml-reserved", opReserved)]
+   ("pepxml-opts", opPepxmlX), ("pepxml-reserved", opReserved), ("pepxml-attrs", opAttrs)]
 
 end Mk.Ops
